@@ -473,8 +473,10 @@ def tucker_als_generated(ctx, case):
         ctx.check(ik == k - 1, "truncated-stoptol0-runs-all-iterations", (ik, k))
         fits.append(float(outk["fit"]))
         if k == iters + 1 and feasible:
-            ctx.check(H.sq(Dk - D) <= 1e-16 * n2, "rerun-truncated-at-reported-iters-reproduces-model",
-                      f"||T - T_rerun||^2 = {H.sq(Dk - D)!r} ||X||^2 = {n2!r}")
+            # compared through the residual (well conditioned) and not through the model: a near-degenerate eigen-gap makes
+            # the leading subspace itself sensitive to ARPACK's random start while the captured energy is not
+            ctx.check(abs(errs[-1] - err2) <= 1e-9 * n2, "rerun-truncated-at-reported-iters-reproduces-fit",
+                      f"||X-T||^2 = {err2!r}, rerun {errs[-1]!r}, ||X||^2 = {n2!r}")
     # one fully printed run: the fit of a single run never decreases (7 printed digits -> slack 2e-6)
     with ctx.sut("tucker_als-printing"):
         resp, textp = _tucker_run(X, case, init, maxiters, 0.0, 1)
